@@ -1585,6 +1585,43 @@ func (b *boundsAn) lenAtLeast(sl ssa.Value, at *ssa.BasicBlock, depth int) int64
 			}
 		}
 	}
+	// inside a loop guarded by i < len(sl) with a counter that starts at a non-negative constant: len(sl) >= 1; if the
+	// length is known to be a multiple of m (every caller passes a window of x*m bytes), then len(sl) >= m
+	for _, blk := range fn.Blocks {
+		iff, ok := lastInstr(blk).(*ssa.If)
+		if !ok {
+			continue
+		}
+		bin, ok := iff.Cond.(*ssa.BinOp)
+		if !ok || bin.Op != token.LSS {
+			continue
+		}
+		lc, ok := stripConv(bin.Y).(*ssa.Call)
+		if !ok {
+			continue
+		}
+		bi, ok := lc.Call.Value.(*ssa.Builtin)
+		if !ok || bi.Name() != "len" || !same(lc.Call.Args[0]) {
+			continue
+		}
+		ph, ok := stripConv(bin.X).(*ssa.Phi)
+		if !ok || !isInductionPhi(ph) {
+			continue
+		}
+		nonNeg := false
+		for _, e := range ph.Edges {
+			if c, isC := constInt(e); isC && c >= 0 {
+				nonNeg = true
+			}
+		}
+		if !nonNeg || !edgeDominates(blk, 0, at) {
+			continue
+		}
+		up(1)
+		if m := b.lenMultipleOf(sl, depth+1); m > 1 {
+			up(m)
+		}
+	}
 	switch x := sl.(type) {
 	case *ssa.MakeSlice:
 		if c, ok := constInt(x.Len); ok {
@@ -1663,6 +1700,113 @@ func (b *boundsAn) lenAtLeast(sl ssa.Value, at *ssa.BasicBlock, depth int) int64
 		}
 	}
 	return best
+}
+
+// lenMultipleOf: a constant m > 1 such that len(sl) is always a multiple of m: sl is a parameter and every in-scope
+// caller passes a window x[lo : lo+n*m] (or x[:n*m]) whose length is a product with the constant m. 0 if unknown.
+func (b *boundsAn) lenMultipleOf(sl ssa.Value, depth int) int64 {
+	p, ok := sl.(*ssa.Parameter)
+	if !ok || depth > 6 {
+		return 0
+	}
+	pf := p.Parent()
+	idx := -1
+	for i, q := range pf.Params {
+		if q == p {
+			idx = i
+		}
+	}
+	node := b.w.CHA().Nodes[pf]
+	if node == nil || idx < 0 {
+		return 0
+	}
+	factorOf := func(v ssa.Value) int64 {
+		// v = n*m, possibly through a phi whose other edge is the constant 0, or a local cell
+		var rec func(v ssa.Value, d int) int64
+		rec = func(v ssa.Value, d int) int64 {
+			v = stripConv(v)
+			if d > 4 {
+				return 0
+			}
+			switch x := v.(type) {
+			case *ssa.BinOp:
+				if x.Op == token.MUL {
+					if c, ok := constInt(x.Y); ok && c > 1 {
+						return c
+					}
+					if c, ok := constInt(x.X); ok && c > 1 {
+						return c
+					}
+				}
+			case *ssa.UnOp:
+				if al, ok := x.X.(*ssa.Alloc); ok && x.Op == token.MUL {
+					m := int64(-1)
+					for _, st := range cellStores(al) {
+						if c, isC := constInt(st.Val); isC && c == 0 {
+							continue
+						}
+						k := rec(st.Val, d+1)
+						if k == 0 || (m > 0 && k != m) {
+							return 0
+						}
+						m = k
+					}
+					if m > 0 {
+						return m
+					}
+				}
+			}
+			return 0
+		}
+		return rec(v, 0)
+	}
+	m, n := int64(-1), 0
+	for _, e := range node.In {
+		if e.Site == nil || !b.scope[e.Caller.Func] {
+			continue
+		}
+		cc := e.Site.Common()
+		if cc.IsInvoke() || idx >= len(cc.Args) {
+			return 0
+		}
+		n++
+		sx, ok := cc.Args[idx].(*ssa.Slice)
+		if !ok || sx.High == nil {
+			return 0
+		}
+		// High = Low + n*m  or Low == nil and High = n*m
+		var k int64
+		if sx.Low == nil {
+			k = factorOf(sx.High)
+		} else if add, ok := stripConv(sx.High).(*ssa.BinOp); ok && add.Op == token.ADD {
+			lo := stripConv(sx.Low)
+			switch {
+			case stripConv(add.X) == lo || sameLoad(stripConv(add.X), lo):
+				k = factorOf(add.Y)
+			case stripConv(add.Y) == lo || sameLoad(stripConv(add.Y), lo):
+				k = factorOf(add.X)
+			default:
+				if c1, ok1 := constInt(add.X); ok1 {
+					if c2, ok2 := constInt(lo); ok2 && c1 == c2 {
+						k = factorOf(add.Y)
+					}
+				}
+				if c1, ok1 := constInt(add.Y); ok1 && k == 0 {
+					if c2, ok2 := constInt(lo); ok2 && c1 == c2 {
+						k = factorOf(add.X)
+					}
+				}
+			}
+		}
+		if k <= 1 || (m > 0 && k != m) {
+			return 0
+		}
+		m = k
+	}
+	if n == 0 || m < 0 {
+		return 0
+	}
+	return m
 }
 
 // minConst: the greatest constant K for which v >= K is established at block `at` (0: nothing known). Sources:
@@ -1800,7 +1944,18 @@ func (b *boundsAn) minConst(v ssa.Value, at *ssa.BasicBlock, depth int) (res int
 				up(kx * ky)
 			}
 		case token.ADD:
-			if typeBits(x.Type()) == 64 && kx >= 0 && ky >= 0 {
+			// 0 means "nothing known", which for an unsigned operand still means >= 0
+			unsigned := false
+			if bt, ok := x.Type().Underlying().(*types.Basic); ok && bt.Info()&types.IsUnsigned != 0 {
+				unsigned = true
+			}
+			tb := typeBits(x.Type())
+			mx := b.maxBits(x.X, 0)
+			if by := b.maxBits(x.Y, 0); by > mx {
+				mx = by
+			}
+			noWrap := tb == 64 || mx+1 <= tb
+			if noWrap && ((unsigned && kx+ky > 0) || (kx > 0 && ky > 0)) {
 				up(kx + ky)
 			}
 		}
